@@ -8,7 +8,7 @@
    rejects a frame.  [fx] says which of the two repairs the code carries. *)
 From Coq Require Import List NArith Bool.
 From Coq Require Import Strings.Byte.
-From Mv Require Import Model.Mux Proof.MuxInv Proof.Mux.
+From Mv Require Import Model.Mux Model.MuxCodec Proof.MuxInv Proof.Mux Proof.MuxCodec.
 Import ListNotations.
 Local Open Scope N_scope.
 
@@ -70,6 +70,18 @@ Theorem c24_invariant :
     run all_fixed sched (init ca cb) = Running st -> Inv st.
 Proof. exact mux_reachable_inv. Qed.
 
+(* The message level and the wire level coincide: what messageBuffer encodes
+   (kind byte, uvarint identifiers and windows, big-endian uint16 data length)
+   is what the reader decodes, frame by frame and for a whole byte stream. *)
+Theorem c24_codec_roundtrip :
+  forall (m : msg) (rest : list byte), wire_ok m = true -> decode (encode m ++ rest) = Some (m, rest).
+Proof. exact mux_codec_roundtrip. Qed.
+
+Theorem c24_codec_stream :
+  forall (ms : list msg) (fuel : nat), forallb wire_ok ms = true -> (length ms <= fuel)%nat ->
+    decode_all fuel (encode_all ms) = Some ms.
+Proof. exact mux_codec_stream. Qed.
+
 (* Non-vacuity: a schedule with both repairs that opens a stream, moves data,
    performs a zero-length read, half-closes and closes, and is still running. *)
 Example c24_nontrivial :
@@ -87,3 +99,5 @@ Print Assumptions c24_refuted_zero_incr.
 Print Assumptions c24_refuted_open_order.
 Print Assumptions c24_no_protocol_error.
 Print Assumptions c24_invariant.
+Print Assumptions c24_codec_roundtrip.
+Print Assumptions c24_codec_stream.
